@@ -385,4 +385,12 @@ def _s_directive(draw, b, n, allow_m, info):
     val_base = draw(st.sampled_from(['n', 'b', 'c', 'd', 'h'] + (['m'] if allow_m else [])))
     info['bases'] += 1
     info['m'] += val_base == 'm'
-    return 'S %d,%d,%s%d:%s' % (b, n, size_base, n, val_base)
+    # the sublength may be shorter than the sub-block (it then repeats), and the part after the colon may carry a
+    # number besides the base letter (the parser accepts 'size:value'; the fill byte itself comes from memory)
+    size = n
+    if n % 2 == 0 and n >= 4 and draw(st.sampled_from([0, 0, 1])):
+        size = n // 2
+    num = draw(st.sampled_from(['', '', '', '255', '1', '7']))
+    if num and val_base in ('c', 'm'):
+        num = ''
+    return 'S %d,%d,%s%d:%s%s' % (b, n, size_base, size, '' if (num and val_base == 'n') else val_base, num)
